@@ -465,6 +465,10 @@ func (cs *Contracts) LoadFile(path, pkg string) error {
 				continue
 			}
 			k, err := strconv.Atoi(fs[2])
+			if fs[2] == "*" {
+				// every call of that name (at least one must exist in each build configuration)
+				k, err = -1, nil
+			}
 			if err != nil {
 				cs.errf(path, it.line, "bad assert ordinal")
 				continue
